@@ -308,8 +308,9 @@ class Script:
         )
 
         defs = [classes.Name(self._inference_state, d) for d in set(names)]
-        # Avoid duplicates
-        return list(set(helpers.sorted_definitions(defs)))
+        # Avoid duplicates. Sort after building the set (like `infer` does), otherwise the
+        # order of the result (and of `help`, which returns it) changes from process to process.
+        return helpers.sorted_definitions(set(defs))
 
     def search(self, string, *, all_scopes=False):
         """
